@@ -2230,3 +2230,21 @@ PROPS["C14"]["level_text"] += (" Fallback arms one by one (Props/C14Fallbacks.le
     "step1 is ever evaluated on; c14_closeArr_live / c14_closeObj_live / c14_keyEnd_live / c14_step_live / c14_numValue_live - the live arm "
     "is the one that runs (a NumberOutOfRange from numValue comes from the converter's outOfRange, never from outOfFuel); examples on "
     "{\"k\":[tru + e]} and on an ill-shaped state that does match closeArr's pattern.")
+
+# ---- C06: the quoted-key clause on the whole document (branch wip-r6): Props/C06KeyDoc.lean
+PROPS["C06"]["partial"] = [x for x in PROPS["C06"]["partial"] if not x.startswith("the quoted-key clause is proved at MapKey::deserialize_iN")] + [
+    "the quoted-key clause is proved at MapKey::deserialize_iN (Model.Typed.keyInt on \"lit\" followed by any rest, which is left unread: "
+    "c06_via_value) AND on the whole one-entry document {\"lit\":value} (c06_key_doc: deTypedTop with schema map (int w) s - deserialize_map, "
+    "next_key_seed, the key, parse_object_colon, the value, the second next_key_seed, end_map and Deserializer::end unfolded on this "
+    "surrounding - for every width, configuration, source and literal, any value schema / text whose own deTyped reads it up to the closing "
+    "brace; c06_key_doc_bool for {\"lit\":true}). Not stated: which error class a rejected key produces (the key-level theorem gives none "
+    "either), and objects with whitespace around the key or with further entries (the same generic typed-model code, not unfolded). "
+    "Op int exercises {\"lit\":null} against the crate (driver field 4 = deTypedTop on that document)"]
+PROPS["C06"]["lean_targets"] = PROPS["C06"]["lean_targets"][:-1] + ["SJ.Props.C06KeyDoc"] + PROPS["C06"]["lean_targets"][-1:]
+PROPS["C06"]["level_text"] += (" Quoted key on the whole document (Props/C06KeyDoc.lean over Proofs/C06KeyDoc.lean): c06_key_doc - for every integer "
+    "width, configuration, source and number literal, from_str::<BTreeMap<iN, S>>({\"lit\":value}) (deTypedTop, schema map (int w) s, any value "
+    "schema s and value text read by s's own deTyped up to the closing brace) is the one-entry map lit -> value keyed by the literal's "
+    "mathematical value when targetInt is that value, returns no value when targetInt rejects (out of range, -0, fraction, exponent), and "
+    "is accepted with x exactly when the key-level textKeyInt is (any rest, any position); c06_key_doc_bool - the instance {\"lit\":true}; "
+    "kernel-checked examples {\"-128\":true} / {\"128\":true} / {\"-0\":true} / {\"1.0\":true} / {\"1e2\":true} into i8 / u8 / u16 keys, "
+    "{\"340282366920938463463374607431768211455\":true} and 2^128 into u128 keys, {\"255\":[null]} into BTreeMap<u8, Vec<()>>.")
